@@ -15,8 +15,8 @@ LEVEL = "fault_enumeration"
 BUDGET_S = {"quick": 0, "thorough": 900}
 RULE = ("case = (generated file, crash offset k): VBS / 1014-blocked VBS / IPM files from the seeded workload "
         "(boundary-biased record lengths, padding- and terminator-like content, MAX_VBS_RECORD_LENGTH knob), "
-        "every truncation offset 0..len(file) for VBS-level files, every offset within +-8 of each structural "
-        "boundary plus a stride for IPM-level files, plus real kill-at-byte-k runs through the crash budget; "
+        "every truncation offset 0..len(file) for VBS-level files of up to 40000 bytes, every offset within +-8 of each "
+        "structural boundary plus a stride of 97 for IPM-level and larger files, plus real kill-at-byte-k runs through the crash budget; "
         "distinct = distinct (file digest, fault kind, k); non-trivial = 0 < k < len(file)")
 COMPONENTS = {
     "real": ["cardutil.mciipm.VbsWriter", "cardutil.mciipm.IpmWriter", "cardutil.mciipm.Block1014",
@@ -92,7 +92,7 @@ def judge_image(scn, image, asked, control_items, via):
 
 
 def offsets_for(scn, asked, total):
-    if scn["level"] == "vbs":
+    if scn["level"] == "vbs" and total <= 40000:
         return range(0, total + 1)
     pts = set(common.boundary_offsets(asked, scn["blocked"], total))
     pts.update(range(0, total + 1, 97))
